@@ -49,12 +49,51 @@ def selftest(run, traces, rejected_tids):
     run.count("selftest_corruptions_rejected", 4)
 
 
+SENSOR_CLAUSES = ("mag_from_stale_state", "imu_from_stale_state", "imu_accel_is_not_the_sensor_model", "mag_is_not_the_sensor_model",
+                  "state_not_advanced", "att_content_is_not_the_true_state", "att_from_stale_state")
+
+
+class _Shim:
+    """routes the Simulator-node trace validation (spec/SimulatorNode.tla + SimulatorNodeTrace.tla, growth check G01) into this
+    check: only the clauses of C12's sensor sentence ("the simulated accelerometer and magnetometer readings have the configured
+    magnitudes and rotate with the true attitude") are verdicts here, everything else stays with G01"""
+    def __init__(self, run):
+        self._run = run
+
+    def __getattr__(self, name):
+        return getattr(self._run, name)
+
+    def violation(self, key, what, data=None):
+        parts = key.split("/")
+        if len(parts) >= 2 and parts[1] in SENSOR_CLAUSES:
+            self._run.violation("sensors/" + "/".join(parts[1:]), what + " [a published reading or truth message is not the sensor model of the "
+                                "CURRENT true state: the readings do not rotate with the true attitude]", data)
+        else:
+            self._run.count("simulator_node_rejects_outside_C12")
+
+
+def sensor_clause(run, tier):
+    """every sensor-rate setting of the SimulatorNode lattice (commensurate or not, with parameter changes and ties): each
+    published reading must be the sensor model applied to the state of THAT instant"""
+    from harness.checks import g01
+    cfgs, traces, infos, val, rejected = g01.node_part(_Shim(run), "quick", None)
+    classes = {g01.cfg_class(c) for c in cfgs}
+    if not {"mag_not_multiple_of_imu", "tie"} <= classes or len(traces) < 8:
+        raise MachineryError(f"vacuous coverage of the sensor clause: classes={sorted(classes)} traces={len(traces)}")
+    run.count("simulator_node_runs", len(traces))
+    run.count("simulator_node_trace_lines", val["lines"])
+
+
 def main():
     tier = sys.argv[1] if len(sys.argv) > 1 else "quick"
     run = Run(PID, tier)
     os.makedirs(run.workdir + "/st", exist_ok=True)
     if "--replay" in sys.argv:
         d = json.load(open(sys.argv[sys.argv.index("--replay") + 1]))
+        if str(d.get("key", "")).startswith("sensors/"):        # a Simulator-node run: re-record and re-validate that configuration
+            from harness.checks import g01
+            g01.node_part(_Shim(run), "quick", None, only=[d["data"]["cfg"]])
+            return run.finish({"traces_validated_against_impl": 1, "rule": "replay of one recorded Simulator run"})
         cfgs = [cfg_of(d["data"]["tv"], 1)]
     else:
         res = run_tlc("AttitudeLoop.tla", f"AttitudeLoop_{tier}.cfg", workdir=run.workdir, dump=True)
@@ -101,6 +140,7 @@ def main():
                     "worst_bias_after_15s": round(s.get("worst_bias_after_15s", -1), 5), "events": s["events"]}, limit=6)
     if "--replay" not in sys.argv:
         selftest(run, traces, {tid for tid, _, _ in val["rejects"]})
+        sensor_clause(run, tier)
     if not any(c["initialize"] for c in cfgs) or not any(not c["initialize"] for c in cfgs):
         if "--replay" not in sys.argv:
             raise MachineryError("vacuous coverage: both initialised and zero-state starts are required")
